@@ -23,7 +23,7 @@ pub struct Cfg {
     pub memory_limit: String,
 }
 
-pub const RULE: &str = "configuration product --runtime-type {current-thread, multi-thread} x --threads {1,2,8} x --eviction-policy {none, random with a --memory-limit that is never reached, spelled 1GiB / 16Mb / 4GiB / 6GiB / 512mib / 2000MB} (x --max-item-size {1 KiB.., default} x --connection-limit {1,3} in the thorough tier), each a real memcrsd child process on its own loopback port. Every configuration is driven with the same single-connection programs (5 scripted ones aimed at the eviction-policy layer, delayed flush, counters and CAS, then proptest-generated ones) (all implemented opcodes loud/quiet, unimplemented opcodes, TTL 0 only) in the same order; oracle: the response byte stream of every program is identical to that of the first configuration (CAS included). Per configuration: a set whose body equals the item limit is accepted and limit+1 is answered 0x03; of 12 simultaneous connections exactly `connection-limit` answer a noop (the others stay unanswered over a 300 ms grace); 8 connections x 400 pipelined increments of one counter return 3200 distinct values and leave the exact total; real-time probe: set ttl 2 hits immediately and misses after 3.5 s while a ttl-0 item and a ttl-7 item are still there. evaluations = configurations x programs. non-trivial = a program with at least 10 requests covering at least 6 opcodes";
+pub const RULE: &str = "configuration product --runtime-type {current-thread, multi-thread} x --threads {1,2,8} x --eviction-policy {none, random with a --memory-limit that is never reached, spelled 1GiB / 16Mb / 4GiB / 6GiB / 512mib / 2000MB} (x --max-item-size {1 KiB.., default} x --connection-limit {1,3} in the thorough tier), each a real memcrsd child process on its own loopback port. Every configuration is driven with the same single-connection programs (5 scripted ones aimed at the eviction-policy layer, delayed flush, counters and CAS, then proptest-generated ones) (all implemented opcodes loud/quiet, unimplemented opcodes, TTL 0 only) in the same order; oracle: the response byte stream of every program is identical to that of the first configuration (CAS included). Per configuration: a set whose body equals the item limit is accepted and limit+1 is answered 0x03; of 12 simultaneous connections exactly `connection-limit` answer a noop (the others stay unanswered over a 300 ms grace); 8 connections x 400 pipelined increments of one counter return 3200 distinct values and leave the exact total; real-time probe: set ttl 2 hits immediately and misses after 3.5 s while a ttl-0 item and a ttl-7 item are still there; nine further ttl-1 items are touched for the first time after those 3.5 s by delete, deleteq, add, replace, incr, append, getq, getkq and a CAS set, and the answers (and the gets that follow) must be the same in every configuration. evaluations = configurations x programs. non-trivial = a program with at least 10 requests covering at least 6 opcodes";
 pub const ASSUME: &[&str] = &[
     "memcrsd is built from /repo's working tree with cargo's dev profile (overflow checks on) into /verif/harness/target/memcrsd-build",
     "the configuration product is enumerated completely for the listed values only; --port varies per configuration by construction",
@@ -383,6 +383,10 @@ fn ttl_probe_start(p: &Proc) -> Result<(), (String, String)> {
     wire::store(wire::SET, b"ttl0", b"y", 0, 0, 2, 0).write_to(&mut s);
     wire::store(wire::SET, b"ttl7", b"z", 0, 7, 4, 0).write_to(&mut s);
     wire::get(wire::GET, b"ttl2", 3).write_to(&mut s);
+    // items that will have expired, unread, when the second half of the probe touches them first
+    for (i, k) in FIRST_TOUCH.iter().enumerate() {
+        wire::store(wire::SET, k.as_bytes(), b"5", 3, 1, 50 + i as u32, 0).write_to(&mut s);
+    }
     let out = run_program(p.port, &s).map_err(|e| ("ttl_probe".to_string(), e))?;
     let rs = wire::parse_all(&out).map_err(|e| ("ttl_probe".to_string(), e))?;
     if rs.iter().find(|r| r.opaque == 3).map(|r| r.status) != Some(0) {
@@ -390,13 +394,30 @@ fn ttl_probe_start(p: &Proc) -> Result<(), (String, String)> {
     }
     Ok(())
 }
-fn ttl_probe_end(p: &Proc) -> Result<(), (String, String)> {
+const FIRST_TOUCH: [&str; 9] = ["e-del", "e-delq", "e-add", "e-repl", "e-incr", "e-app", "e-getq", "e-getkq", "e-set-cas"];
+
+/// second half of the real-time probe; returns the transcript (opcode, opaque, status, value) of the commands
+/// that are the FIRST to touch an item whose ttl has run out in real time - it must not depend on the configuration
+fn ttl_probe_end(p: &Proc) -> Result<Vec<(u8, u32, u16, Vec<u8>)>, (String, String)> {
     let mut s = vec![];
     wire::get(wire::GET, b"ttl2", 1).write_to(&mut s);
     wire::get(wire::GET, b"ttl0", 2).write_to(&mut s);
     wire::get(wire::GET, b"ttl7", 3).write_to(&mut s);
+    wire::get(wire::DELETE, b"e-del", 60).write_to(&mut s);
+    wire::get(wire::DELETEQ, b"e-delq", 61).write_to(&mut s);
+    wire::store(wire::ADD, b"e-add", b"n", 1, 0, 62, 0).write_to(&mut s);
+    wire::store(wire::REPLACE, b"e-repl", b"n", 1, 0, 63, 0).write_to(&mut s);
+    wire::counter(wire::INCR, b"e-incr", 1, 40, 0, 64, 0).write_to(&mut s);
+    wire::concat(wire::APPEND, b"e-app", b"x", 65, 0).write_to(&mut s);
+    wire::get(wire::GETQ, b"e-getq", 66).write_to(&mut s);
+    wire::get(wire::GETKQ, b"e-getkq", 67).write_to(&mut s);
+    wire::store(wire::SET, b"e-set-cas", b"n", 1, 0, 68, 0x7777).write_to(&mut s);
+    for (i, k) in FIRST_TOUCH.iter().enumerate() {
+        wire::get(wire::GET, k.as_bytes(), 80 + i as u32).write_to(&mut s);
+    }
     let out = run_program(p.port, &s).map_err(|e| ("ttl_probe".to_string(), e))?;
     let rs = wire::parse_all(&out).map_err(|e| ("ttl_probe".to_string(), e))?;
+    let transcript: Vec<(u8, u32, u16, Vec<u8>)> = rs.iter().filter(|r| r.opaque >= 60 && r.opaque < 100).map(|r| (r.opcode, r.opaque, r.status, r.value.clone())).collect();
     let st = |o: u32| rs.iter().find(|r| r.opaque == o).map(|r| r.status);
     if st(1) != Some(1) {
         return Err(("expiry_not_real_time".into(), format!("{:?}: an item stored with ttl 2 is still returned 3.5 s later (status {:?})", p.cfg, st(1))));
@@ -407,7 +428,7 @@ fn ttl_probe_end(p: &Proc) -> Result<(), (String, String)> {
     if st(3) != Some(0) {
         return Err(("expiry_not_real_time".into(), format!("{:?}: an item stored with ttl 7 is already gone 3.5 s later (the server clock runs fast)", p.cfg)));
     }
-    Ok(())
+    Ok(transcript)
 }
 
 pub fn check(ctx: &mut Ctx) -> i32 {
@@ -530,9 +551,25 @@ pub fn check(ctx: &mut Ctx) -> i32 {
         }
     }
     std::thread::sleep(Duration::from_millis(3500));
+    let mut first: Option<Vec<(u8, u32, u16, Vec<u8>)>> = None;
     for p in &procs {
-        if let Err((clause, msg)) = ttl_probe_end(p) {
-            return fail(ctx, &acc, &clause, msg, json!({"config": p.cfg}));
+        match ttl_probe_end(p) {
+            Err((clause, msg)) => return fail(ctx, &acc, &clause, msg, json!({"config": p.cfg})),
+            Ok(t) => match &first {
+                None => first = Some(t),
+                Some(f) => {
+                    if *f != t {
+                        let show = |t: &Vec<(u8, u32, u16, Vec<u8>)>| t.iter().map(|(op, o, st, v)| format!("{}#{}:{:#x}:{}", wire::opname(*op), o, st, wire::hexs(v))).collect::<Vec<_>>().join(" ");
+                        return fail(
+                            ctx,
+                            &acc,
+                            "config_dependent_behaviour_after_expiry",
+                            format!("the commands that are the first to touch items whose ttl (1 s) ran out 3.5 s ago are answered differently by {:?}: [{}] and by the reference configuration {:?}: [{}]", p.cfg, show(&t), procs[0].cfg, show(f)),
+                            json!({"config": p.cfg}),
+                        );
+                    }
+                }
+            },
         }
     }
     acc.count("realtime_ttl_probes", cfgs.len() as u64);
